@@ -43,7 +43,9 @@ def gen_case(rng, idx=0):
     kmap = {}
     for uid in range(items):
         kmap[uid] = {"one": 1, "zero-some": rng.choice([0, 1]), "multi": 3, "mixed": rng.choice([0, 1, 3])}[pat]
-    rkind = rng.choice(["none", "none", "none", "first", "last", "every", "all", "random"])
+    rkind = rng.choice(["none", "none", "none", "first", "last", "every", "all", "all", "random"])
+    if rkind == "all" and rng.random() < .6: items = max(items, 4 * n + 3)      # every worker fails while the loader still holds items
+    for uid in range(items): kmap.setdefault(uid, 1)
     if items == 0: rkind = "none"
     raising = {"none": [], "first": [0], "last": [items-1], "every": list(range(0, items, max(m, 2))), "all": list(range(items)),
                "random": [u for u in range(items) if rng.random() < .3]}[rkind]
@@ -68,7 +70,8 @@ def gen_case(rng, idx=0):
         fdr = True; n = min(n, 3); items = n * (m - 1) + 2 + rng.choice([0, 1, 2]); tail = 0; lj = 0
         kmap = {u: kmap.get(u, 1) for u in range(items)}
     reuse = rng.choice([2, 3, 5, 7]) if (abandon is None and rng.random() < .35) else 0
-    return {"reuse": reuse, "finish_during_replacement": fdr, "tail_delay_ms": tail, "n": n, "m": m, "n_items": items, "items_class": base, "via": via, "mode": mode, "pattern": pat, "kmap": kmap,
+    none_items = [rng.choice([0, 0, items // 2, items - 1])] if (items > 0 and rng.random() < .2) else []     # one item is None
+    return {"none_items": none_items, "reuse": reuse, "finish_during_replacement": fdr, "tail_delay_ms": tail, "n": n, "m": m, "n_items": items, "items_class": base, "via": via, "mode": mode, "pattern": pat, "kmap": kmap,
             "raising_kind": rkind, "raising": raising, "abandon": abandon, "perturb": perturb, "perturb_seed": rng.randrange(1 << 30),
             "worker_jitter_ms": wj, "loader_jitter_ms": lj, "consumer_jitter_ms": cj, "watchdog_s": 45, "exc_type": rng.choice(["ValueError", "KeyError", "InjectedFailure", "AssertionError", "EOFError", "TypeError"] if via == "coba" else ["ValueError", "KeyError", "RuntimeError", "InjectedFailure", "AssertionError", "EOFError", "TypeError"])}
 
